@@ -223,6 +223,13 @@ impl MultiWriter {
     pub(crate) fn finish(mut self) -> crate::Result<Vec<BlobFile>> {
         let blob_file = Self::consume_writer(self.active_writer, self.descriptor_table.clone())?;
         self.results.extend(blob_file);
+
+        // IMPORTANT: fsync the folder, otherwise the directory entries of the new blob files
+        // may be lost in a crash, even though a version that references them was persisted
+        if !self.results.is_empty() {
+            crate::file::fsync_directory(&self.folder)?;
+        }
+
         Ok(self.results)
     }
 }
